@@ -200,8 +200,8 @@ impl Check for C08 {
     }
     fn lanes(&self, tier: Tier) -> Vec<(&'static str, usize, usize)> {
         match tier {
-            Tier::Quick => vec![("compile", 8000, 300)],
-            Tier::Thorough => vec![("compile", 120_000, 400)],
+            Tier::Quick => vec![("compile", 48_000, 300)],
+            Tier::Thorough => vec![("compile", 960_000, 400)],
         }
     }
     fn run_case(&self, _lane: &str, src: &mut Src, rep: &mut Report) -> Result<(), Failure> {
